@@ -203,6 +203,9 @@ func Walk(x []byte, l uint32, exts []*Ext) lib.Res {
 			res.Chain = append(res.Chain, lib.Node{Str: stack[k].Mime, Ext: stack[k].Extension})
 		}
 		res.Chain = append(res.Chain, chainUp...)
+		// an extension that re-uses one of the charset-bearing type names gets a
+		// charset parameter computed from the input; the model does not predict its value
+		res.BareLeaf = lib.IsCharsetName(cur.Mime)
 		return res
 	}
 	return b
